@@ -1066,6 +1066,17 @@ func main() {
 			faults[k] = agg.NonBoring[k]
 		}
 	}
+	// faults that are not plain choice kinds: counted where they actually fired
+	if n := agg.Counters["clock_jumps"]; n > 0 {
+		faults["clock_jumps_and_idle_time_advances"] = n
+	}
+	for name, n := range agg.Probes {
+		for _, pre := range []string{"cut_", "stop_", "close_", "local_close", "tcp_client_aborted", "stream_reset", "stream_fin", "dgram_", "query_context_cancelled", "keep_alive", "window_full", "short_read"} {
+			if strings.HasPrefix(name, pre) && n > 0 {
+				faults[name] = n
+			}
+		}
+	}
 	if len(samples) == 0 {
 		samples = append(samples, "no non-trivial sample run was emitted")
 	}
